@@ -123,7 +123,7 @@ class PathResult:
 
 class Engine:
     def __init__(self, facts, inline_depth=4, max_paths=4000, summaries=None, inline_filter=None,
-                 skip_tracing=True, loop_unroll=0, havoc_loops=False):
+                 skip_tracing=True, loop_unroll=0, havoc_loops=False, unique_impls=False):
         self.facts = facts
         self.inline_depth = inline_depth
         self.max_paths = max_paths
@@ -135,6 +135,7 @@ class Engine:
         # memory behind pointers) is forgotten, so that the paths through the body describe an arbitrary iteration and not
         # just the first one (loop-carried state such as a cache filled by an earlier iteration is then unknown)
         self.havoc_loops = havoc_loops
+        self.unique_impls = unique_impls
         self.inlined = set()
         self.opaque = set()
 
@@ -551,7 +552,7 @@ class Engine:
             else:
                 call_args = [env] + call_args
         sub = Engine(self.facts, inline_depth=self.inline_depth, max_paths=400, summaries=self.summaries,
-                     inline_filter=self.inline_filter, skip_tracing=self.skip_tracing)
+                     inline_filter=self.inline_filter, skip_tracing=self.skip_tracing, unique_impls=self.unique_impls)
         sub._apply_depth = self._apply_depth + 1
         try:
             res = sub.run(body, args=call_args, store=store, fid_base=1000 * (self._apply_depth + 1) + st.next_fid,
@@ -843,6 +844,15 @@ class Engine:
                             callee_body = cb_
                             name = cb_.path
                             break
+            if callee_body is None and self.unique_impls and (fn.get('targs') or []) and '::' in declared and \
+                    fr.body.crate.types[fn['targs'][0]].get('k') == 'param' and declared.startswith(('clock_bound', 'clockbound')):
+                # a workspace trait method called on a type parameter that is not known here: when the trait has exactly
+                # one implementation in the (non-test) build, that is the only type the parameter can stand for
+                trait_path, meth = declared.rsplit('::', 1)
+                cands_ = [cb_ for cb_ in self.facts.bodies() if cb_.name == meth and cb_.impl_trait == trait_path and cb_.defkind != 'Closure']
+                if len(cands_) == 1:
+                    callee_body = cands_[0]
+                    name = callee_body.path
             if callee_body is None and fv[0] == 'fn' and fn.get('defkind') == 'Closure':
                 callee_body = self.facts.body(fn['path'])
         if callee_body is not None and len(st.frames) <= self.inline_depth \
